@@ -384,3 +384,59 @@ pub fn fmtcli_main(args: &[String]) {
     report("check_formatted", problems);
     let _ = std::fs::remove_dir_all(&dir);
 }
+
+/// `cargotoml <scratch-dir>`: generate projects through the public ProjectGenerator API and print the `[dependencies]` lines of
+/// the written Cargo.toml per scenario: `DEPS <scenario> <line>|<line>|..` (replay of X-cargo_toml; the caller runs this in
+/// several processes and compares).
+pub fn cargotoml_main(args: &[String]) {
+    use incan::ProjectGenerator;
+    let base = std::path::PathBuf::from(args.first().cloned().unwrap_or_else(|| "/verif/work/cargotoml".to_string())).join(format!("run-{}", std::process::id()));
+    let _ = std::fs::remove_dir_all(&base);
+    let scenarios: Vec<(&str, bool, bool, bool, Vec<&str>)> = vec![
+        ("eight_crates", false, false, false, vec!["rand", "regex", "anyhow", "log", "bytes", "futures", "itertools", "uuid"]),
+        ("serde_overlap", true, false, false, vec!["serde_json", "serde", "chrono"]),
+        ("axum_tokio_overlap", false, false, true, vec!["tokio", "tracing"]),
+        ("tokio_only", false, true, false, vec!["reqwest", "regex"]),
+        ("unknown_crate", false, false, false, vec!["rand", "left_pad"]),
+        ("all_known", false, false, false, vec![
+            "serde", "serde_json", "tokio", "time", "chrono", "reqwest", "uuid", "rand", "regex", "anyhow", "thiserror", "tracing", "clap", "log",
+            "env_logger", "sqlx", "futures", "bytes", "itertools",
+        ]),
+    ];
+    for (name, serde, tokio, axum, crates) in scenarios {
+        let dir = base.join(name);
+        let mut g = ProjectGenerator::new(&dir, "demo", true);
+        g.set_needs_serde(serde);
+        g.set_needs_tokio(tokio);
+        g.set_needs_axum(axum);
+        let mut refused = Vec::new();
+        for c in &crates {
+            // `()` before the unknown-crate repair, `Result<(), UnknownCrateError>` after it: both are Debug
+            let r = g.add_rust_crate(c);
+            if format!("{r:?}").starts_with("Err") {
+                refused.push(c.to_string());
+            }
+        }
+        if !refused.is_empty() {
+            println!("REFUSED {name} {}", refused.join(","));
+        }
+        if let Err(e) = g.generate("fn main() {}\n") {
+            println!("DEPS {name} ERROR {e}");
+            continue;
+        }
+        let text = std::fs::read_to_string(dir.join("Cargo.toml")).unwrap_or_default();
+        let mut deps = Vec::new();
+        let mut inside = false;
+        for line in text.lines() {
+            if line.starts_with('[') {
+                inside = line.trim() == "[dependencies]";
+                continue;
+            }
+            if inside && !line.trim().is_empty() {
+                deps.push(line.trim().to_string());
+            }
+        }
+        println!("DEPS {name} {}", deps.join("|"));
+    }
+    let _ = std::fs::remove_dir_all(&base);
+}
